@@ -191,14 +191,20 @@ def finish_hand(ctx):
         load.LISTENERS.remove(ctx._listener)
 
 
-def apply_call(ctx, name, args):
+def apply_call(ctx, name, args, commentary=None):
     """Record and perform one client call; returns the operation record."""
     state = ctx.state
-    ctx.script.append([name, encode_args(args)])
+    if commentary is None:
+        ctx.script.append([name, encode_args(args)])
+    else:
+        ctx.script.append([name, encode_args(args), commentary])
     for m in ctx.monitors:
         m.on_call(ctx, state, name, args)
     try:
-        result = getattr(state, name)(*args)
+        if commentary is None:
+            result = getattr(state, name)(*args)
+        else:
+            result = getattr(state, name)(*args, commentary=commentary)
     except Exception as exc:    # noqa: BLE001
         for m in ctx.monitors:
             m.on_call_failed(ctx, state, name, args, exc)
@@ -211,6 +217,8 @@ def apply_call(ctx, name, args):
 # --------------------------------------------------------------------------
 # policies
 
+COMMENTS = ('nice hand', "it's a trap", 'tank 2:30', 'x # y', 'All-in!',
+            'with  two  spaces', 'UTG "the kid"')
 POLICIES = ('uniform', 'passive', 'aggressive', 'foldy', 'drawheavy', 'allin')
 DEAL_MODES = ('default', 'explicit', 'chunks', 'anyorder')
 
@@ -455,8 +463,11 @@ def play_hand(cfg, pol, monitors, prop=None, max_ops=None):
                 if ctx.violations or not avail:
                     break
                 name, args = choose(state, avail, rng, pol)
+                com = None
+                if pol.get('commentary') and rng.random() < 0.12:
+                    com = rng.choice(COMMENTS)
                 try:
-                    apply_call(ctx, name, args)
+                    apply_call(ctx, name, args, com)
                 except HandAbort:
                     break
                 except Exception as exc:   # noqa: BLE001
@@ -483,7 +494,9 @@ def replay_script(cfg, script, monitors, prop=None, stop_at=None):
             state = ctx.state
             if state is None or 'ctor_exc' in ctx.data:
                 return ctx
-            for k, (name, args) in enumerate(script):
+            for k, entry in enumerate(script):
+                name, args = entry[0], entry[1]
+                com = entry[2] if len(entry) > 2 else None
                 if stop_at is not None and k >= stop_at:
                     break
                 avail = available(state)
@@ -492,7 +505,7 @@ def replay_script(cfg, script, monitors, prop=None, stop_at=None):
                 if ctx.violations:
                     break
                 try:
-                    apply_call(ctx, name, decode_args(args))
+                    apply_call(ctx, name, decode_args(args), com)
                 except Exception as exc:    # noqa: BLE001
                     ctx.data['op_exc'] = (name, args, exc)
                     break
